@@ -259,6 +259,10 @@ def main():
         if spot_bad:
             problems.append('nondeterminism: runs %s gave different digests in a fresh interpreter '
                             'with another PYTHONHASHSEED' % spot_bad)
+        wd = [i for i in sorted(rows) if rows[i].get('aborted') == 'watchdog']
+        if wd:
+            problems.append('runs %s hit the per-run watchdog (%ds): neither a pass nor a violation'
+                            % (wd[:8], spec['watchdog_s']))
         if n < min(tier['min_runs'], runs):
             problems.append('only %d of %d runs completed within the budget (minimum %d)'
                             % (n, runs, tier['min_runs']))
